@@ -4,7 +4,7 @@
 (* these predicates say WHAT must be true of any change.  They are evaluated   *)
 (* by TLC on every transition of the bounded models (MC*.tla) and on every     *)
 (* step of the implementation's recorded behaviour (Trace.tla).                *)
-EXTENDS Vt
+EXTENDS Vt, FiniteSets
 
 \* ------------------------------------------------------------------ ownership
 (* Which properties fix the behaviour of a function (DESIGN.md section 5).  A  *)
@@ -114,6 +114,48 @@ FreshEq(a, b) == NoDirty(a) = NoDirty(b)
 
 (* C14: drained(L) \o lines(L) = lines(unlimited)                                *)
 NoLoss(drainedL, a, b) == drainedL \o a.t.buf.lines = b.t.buf.lines
+
+\* ------------------------------------------------------------------------ C10
+(* Logical lines: rows joined along wrap marks (cells, not text).               *)
+LogicalLines(lines) ==
+  LET F(acc, k) == LET cur == acc[2] \o lines[k].c IN
+                   IF lines[k].w THEN <<acc[1], cur>> ELSE <<Append(acc[1], cur), <<>>>>
+      r == FoldLeft(F, <<<<>>, <<>>>>, Iota(Len(lines)))
+  IN IF r[2] # <<>> THEN Append(r[1], r[2]) ELSE r[1]
+(* the cursor's place in the logical text, computed POSITIONALLY: <<index of its  *)
+(* logical line, offset within it>>; a wrap-pending cursor is logically after the *)
+(* last character of its row                                                      *)
+CursorLogical(t) ==
+  LET ls == t.buf.lines
+      a == Len(ls) - t.rows + t.row + 1
+      ends == {i \in 1..(a - 1) : ~ls[i].w}
+      start == IF ends = {} THEN 1 ELSE (CHOOSE i \in ends : \A j \in ends : j <= i) + 1
+  IN <<Cardinality(ends) + 1, (a - start) * t.cols + t.col>>
+IsPrefixSeq(a, b) == Len(a) <= Len(b) /\ a = SubSeq(b, 1, Len(a))
+SameUpToBlanks(a, b) == TrimCells(a) = TrimCells(b)
+AllDefault(cells) == \A i \in 1..Len(cells) : IsDefault(cells[i])
+(* new logical lines L2 against old L1 from line `from` on: unchanged (up to       *)
+(* trailing blanks), then possibly one line cut short, then only blank padding    *)
+TailPreserved(L1, L2, from) ==
+  \E n \in (from - 1)..Len(L2) :
+    /\ \A i \in from..n : i <= Len(L1) /\ (SameUpToBlanks(L2[i], L1[i]) \/ (i = n /\ IsPrefixSeq(TrimCells(L2[i]), L1[i])))
+    /\ \A i \in (n + 1)..Len(L2) : AllDefault(L2[i])
+ResizeTextOK(t, u) ==
+  LET L1 == LogicalLines(t.buf.lines)  L2 == LogicalLines(u.buf.lines)
+      c1 == CursorLogical(t)  c2 == CursorLogical(u)
+      k == c1[1]  o == c1[2]
+  IN /\ c2[1] = k                                                       \* same logical line
+     /\ k <= Len(L2) /\ k <= Len(L1)
+     /\ \A i \in 1..(k - 1) : SameUpToBlanks(L2[i], L1[i])              \* everything above: unchanged
+     /\ LET pre == Min2(o, Len(TrimCells(L1[k]))) IN
+        Len(L2[k]) >= pre /\ SubSeq(L2[k], 1, pre) = SubSeq(L1[k], 1, pre) \* everything before the cursor intact
+     /\ (o < Len(TrimCells(L1[k])) => c2[2] = o)                         \* on a character: on that same character
+     /\ (SameUpToBlanks(L2[k], L1[k]) \/ IsPrefixSeq(TrimCells(L2[k]), L1[k]))
+     /\ (IF SameUpToBlanks(L2[k], L1[k]) THEN TailPreserved(L1, L2, k + 1)
+         ELSE \A i \in (k + 1)..Len(L2) : AllDefault(L2[i]))              \* cut inside the cursor's line: nothing after it
+(* C16 after a resize during the excursion: the primary's lines re-wrapped, never  *)
+(* altered (at most cut short)                                                    *)
+LinesPreserved(lines1, lines2) == TailPreserved(LogicalLines(lines1), LogicalLines(lines2), 1)
 
 \* ------------------------------------------------------------------------ C09
 (* text() = the input lines, trailing white space trimmed, trailing empties     *)
